@@ -26,6 +26,48 @@ impl TcpStream {
         kernel::sock_set_read_timeout(&self.k, self.sock, dur.map(crate::time::dur_ns));
         Ok(())
     }
+    pub fn set_write_timeout(&self, dur: Option<Duration>) -> io::Result<()> {
+        if dur == Some(Duration::ZERO) {
+            return Err(io::Error::new(io::ErrorKind::InvalidInput, "cannot set a 0 duration timeout"));
+        }
+        kernel::sock_set_write_timeout(&self.k, self.sock, dur.map(crate::time::dur_ns));
+        Ok(())
+    }
+    pub fn read_timeout(&self) -> io::Result<Option<Duration>> {
+        Ok(kernel::sock_timeouts(&self.k, self.sock).0.map(Duration::from_nanos))
+    }
+    pub fn write_timeout(&self) -> io::Result<Option<Duration>> {
+        Ok(kernel::sock_timeouts(&self.k, self.sock).1.map(Duration::from_nanos))
+    }
+    /// `TcpStream::connect`: every address in turn, no timeout of its own
+    pub fn connect<A: std::net::ToSocketAddrs>(addr: A) -> io::Result<TcpStream> {
+        let mut last = io::Error::new(io::ErrorKind::InvalidInput, "could not resolve to any addresses");
+        for a in addr.to_socket_addrs()? {
+            match kernel::connect(&a, u64::MAX) {
+                Ok((k, sock)) => return Ok(TcpStream { k, sock, peer: a }),
+                Err(e) => last = e,
+            }
+        }
+        Err(last)
+    }
+    pub fn local_addr(&self) -> io::Result<SocketAddr> {
+        Ok(SocketAddr::new(std::net::IpAddr::V4(std::net::Ipv4Addr::new(10, 255, 0, 1)), 40000 + (self.sock % 20000) as u16))
+    }
+    pub fn set_nodelay(&self, _nodelay: bool) -> io::Result<()> {
+        Ok(())
+    }
+    pub fn nodelay(&self) -> io::Result<bool> {
+        Ok(true)
+    }
+    pub fn set_ttl(&self, _ttl: u32) -> io::Result<()> {
+        Ok(())
+    }
+    pub fn ttl(&self) -> io::Result<u32> {
+        Ok(64)
+    }
+    pub fn take_error(&self) -> io::Result<Option<io::Error>> {
+        Ok(None)
+    }
     pub fn try_clone(&self) -> io::Result<TcpStream> {
         kernel::sock_clone(&self.k, self.sock);
         Ok(TcpStream { k: self.k.clone(), sock: self.sock, peer: self.peer })
